@@ -200,6 +200,37 @@ func init() {
 			s.End()
 			s.Blocks(1, allHdr)
 		}},
+		Directed{"zero_gas_price", []string{"C04", "C16", "C17", "C05"}, famWith(0, map[string]string{"gasPrice": "0"}), func(s *Script) {
+			// transactions are free: a transaction without value leaves its sender's balance exactly where it was, and
+			// still uses up its nonce - natively and through the EVM
+			kr := s.R.KR
+			chain := s.Sc.Genesis.ChainID
+			s.Blocks(2, allHdr)
+			s.Begin(allHdr) // 3
+			ev, cnt := s.Deploy(4, prog("counter", nil), 5, "0", cgas)
+			s.expect(OK(ev), "deploy counter (free)")
+			call := s.B.Sign(web3.NewTrxContract(kr.Addr(5), cnt, s.nonce(5), cgas, s.price(), Amt("0"), nil), 5, chain)
+			s.expect(OK(s.DeliverRaw(call, "", "contract:call")), "a5 calls the counter: its balance does not move")
+			s.expect(!OK(s.DeliverRaw(call, "", "replay:contract:call")), "the same bytes again in the same block")
+			tr := s.B.Sign(web3.NewTrxTransfer(kr.Addr(6), kr.Addr(4), s.nonce(6), s.gas(), s.price(), Amt("0")), 6, chain)
+			s.expect(OK(s.DeliverRaw(tr, "", "transfer")), "a6 transfers nothing for nothing")
+			s.expect(!OK(s.DeliverRaw(tr, "", "replay:transfer")), "the same bytes again")
+			s.End()
+			s.Begin(allHdr) // 4
+			s.expect(!OK(s.DeliverRaw(call, "", "replay:contract:call")), "the call again in a later block")
+			s.expect(!OK(s.DeliverRaw(tr, "", "replay:transfer")), "the transfer again in a later block")
+			s.expect(OK(s.CallC(5, cnt, nil, "0", cgas)), "a5 calls again with its next nonce")
+			s.TransferTo(6, cnt, "0", cgas) // plain transfer of nothing to the contract
+			s.expect(OK(s.CallC(6, kr.Addr(5), nil, "0", cgas)), "contract-type transaction to a plain account, no value")
+			s.expect(OK(s.SetDoc(6, "n", "u")), "set-doc for nothing")
+			s.End()
+			s.Restart()
+			s.Begin(allHdr) // 5
+			s.expect(!OK(s.DeliverRaw(call, "", "replay:contract:call")), "the call again after a restart")
+			s.expect(OK(s.CallC(5, cnt, nil, "3", cgas)), "a call with value")
+			s.End()
+			s.Blocks(1, allHdr)
+		}},
 		Directed{"prefund_then_create", []string{"C17", "C02"}, fam(0), func(s *Script) {
 			// an address receives value and becomes a contract later in the SAME transaction: the new contract owns it
 			s.Blocks(2, allHdr)
